@@ -56,6 +56,16 @@ def gtbEngine (ss : GtbState) (args : List String) : GtbState × String :=
         | none => (ss, s!"err | {gtbDigest s.bank}")
       else (ss, "bad-op")
     | _, _ => (ss, "bad-op")
+  -- exchange of vault 0 completed against the bank of vault 1
+  | ["claimx", sid, g] =>
+    match gtbLookup ss sid, pNat g with
+    | some s, some g =>
+      if g < 2 ^ 64 then
+        match claimWith 1 0 s.bank g with
+        | some (b, n, amts) => (gtbSet ss sid { s with bank := b }, s!"ok {n} [{gtbShowNats amts}] | {gtbDigest b}")
+        | none => (ss, s!"err | {gtbDigest s.bank}")
+      else (ss, "bad-op")
+    | _, _ => (ss, "bad-op")
   | ["setf", sid, which, f] =>
     match gtbLookup ss sid, pNat f with
     | some s, some f =>
